@@ -461,6 +461,26 @@ def differential(rep, name, geo, rng, npoints, nlines):
                 for l in lays[1:]:
                     if cols[a].surface > l.bottom and l.bottom < z and (z < l.top or (l is lays[1] and z < cols[a].surface)):
                         want = geo.block_name(l.name, cols[a].name)
+            # the same question asked block by block: the expected block says yes, every other block of that layer says no
+            inlayer = [l for l in lays[1:] if l.bottom < z < l.top]
+            if inlayer and (a is None or want is not None):
+                others = [c for k_, c in enumerate(cols) if k_ != a and c.surface > inlayer[0].bottom]
+                rng.shuffle(others)
+                near = [c for c in others if c.bounding_box[0][0] <= pos[0] <= c.bounding_box[1][0]
+                        and c.bounding_box[0][1] <= pos[1] <= c.bounding_box[1][1]]
+                p3 = np.array([pos[0], pos[1], z])
+                try:
+                    with core.quiet():
+                        yes = geo.block_contains_point(want, p3) if want is not None else True
+                        wrong = [c.name for c in (near + others[:6]) if geo.block_contains_point(geo.block_name(inlayer[0].name, c.name), p3)]
+                except Exception as ex:
+                    rep.violation("%s:P4:block_contains_point-raises" % name, "P4_UniqueBlock", {"mesh": name, "point": [float(x) for x in p3], "error": repr(ex)})
+                    yes, wrong = True, []
+                rep.case(("dblk-each", name, want is not None, len(near)))
+                if not yes or wrong:
+                    rep.violation("%s:P4:block_by_block:%s" % (name, "denied" if not yes else "claimed_by_another"), "P4_UniqueBlock",
+                                  {"mesh": name, "point": [float(x) for x in p3], "expected": want, "expected_block_says_yes": bool(yes),
+                                   "other_columns_whose_block_says_yes": wrong})
             useq = rng.random() < 0.5
             bmap = {}
             if want is not None and rng.random() < 0.3:
